@@ -31,6 +31,7 @@ type FoundViolation struct {
 type WorkerOut struct {
 	Property   string            `json:"property"`
 	Runs       int               `json:"runs"`
+	Evals      int               `json:"evals"`
 	Steps      int               `json:"steps"`
 	Events     int               `json:"events"`
 	NonTrivial int               `json:"nontrivial"`
@@ -60,6 +61,11 @@ func RunWorker(e Engine, tier string, batch uint64, lo, hi, stride int, deadline
 		s := GenScript(e, batch, idx, tier)
 		res := e.Exec(s, false)
 		out.Runs++
+		if res.Evals > 0 {
+			out.Evals += res.Evals
+		} else {
+			out.Evals++
+		}
 		out.Steps += res.Steps
 		out.Events += res.Events
 		out.Foreign += res.Foreign
@@ -94,6 +100,13 @@ func RunWorker(e Engine, tier string, batch uint64, lo, hi, stride int, deadline
 			}
 			min := Minimize(e, s, sig, 4000)
 			r2 := e.Exec(min, false)
+			if p, ok := e.(Pinner); ok && r2.Violation != nil {
+				if pinned := p.Pin(min, r2); pinned != nil {
+					if r3 := e.Exec(pinned, false); r3.Violation != nil && r3.Violation.Signature == sig {
+						min, r2 = pinned, r3
+					}
+				}
+			}
 			if r2.Violation == nil || r2.Violation.Signature != sig {
 				// must not happen: Minimize only accepts failing candidates
 				min = s
@@ -258,6 +271,7 @@ func RunCheck(o CheckOptions) int {
 			fmt.Fprintf(os.Stderr, "tabsim: HARNESS TROUBLE worker %d: %s\n", k, wo.Trouble)
 		}
 		tot.Runs += wo.Runs
+		tot.Evals += wo.Evals
 		tot.Steps += wo.Steps
 		tot.Events += wo.Events
 		tot.NonTrivial += wo.NonTrivial
@@ -364,7 +378,7 @@ func RunCheck(o CheckOptions) int {
 		samples = append(samples, s)
 	}
 	cov := map[string]interface{}{
-		"evaluations":             tot.Runs,
+		"evaluations":             tot.Evals,
 		"distinct_nontrivial":     distinct,
 		"nontrivial_runs":         tot.NonTrivial,
 		"rule":                    e.Rule() + " distinct_nontrivial is a lower bound: popcount of a 2^24-bit bitmap of state hashes of non-trivial runs.",
